@@ -42,8 +42,9 @@ DEVS = {"imm_noref": "CleanupOnceAfterAll", "zero_noerr": "ClosedEcanceled"}
 INV = ("TypeOK ReadConservation HighWater WriteConservation DoneOnceLast CompletionOrder "
        "BarrierBetween ClosedEcanceled CleanupOnceAfterAll StopFlagsFinal")
 
-MODELS_Q = ["Io_r_q", "Io_w_q", "Io_cs_q", "Io_b_q"]          # spec/cfg/<name>.cfg
-MODELS_T = ["Io_r_t", "Io_rinf_t", "Io_w_t", "Io_cs_t", "Io_csw_t", "Io_b_t", "Io_bs_t", "Io_f_t"]
+MODELS_Q = ["Io_r_q", "Io_w_q", "Io_cs_q", "Io_b_q", "Io_conv_q"]          # spec/cfg/<name>.cfg
+MODELS_T = ["Io_r_t", "Io_rinf_t", "Io_w_t", "Io_w3_t", "Io_cs_t", "Io_cs3_t", "Io_csw_t", "Io_b_t", "Io_bs_t", "Io_rw_t",
+            "Io_f_t", "Io_conv_t"]
 # (mutant, config it must be refuted in)
 MUTANTS = [("dup_deliver", "Io_r_q"), ("early_done", "Io_r_q"), ("pick_skip", "Io_r_q"),
            ("high_plus_one", "Io_r_q"), ("close_nocancel", "Io_cs_q")]
@@ -72,7 +73,8 @@ def model(v, tier):
     for dev in DEVS:
         jobs.append(("dev", dev, cfg_variant("Io_cs_q", "dev_" + dev, [("Dev = {}", 'Dev = {"%s"}' % dev),
                                                                         ("INVARIANTS " + INV, "INVARIANTS " + DEVS[dev])]), 280))
-    jobs.append(("live", "Io_live", "Io_live.cfg", 1200 if tier == "thorough" else 280))
+    for name in ["Io_live", "Io_livec"] + (["Io_live_t"] if tier == "thorough" else []):
+        jobs.append(("live", name, name + ".cfg", 1500 if tier == "thorough" else 280))
     w = max(2, NCPU // 4)
 
     def one(job):
@@ -99,11 +101,11 @@ def model(v, tier):
 
 
 # ------------------------------------------------------------------ schedules
-K_PIPE_IN, K_PIPE_OUT, K_SOCK, K_FILE_IN, K_FILE_OUT = range(5)
+K_PIPE_IN, K_PIPE_OUT, K_SOCK, K_FILE_IN, K_FILE_OUT, K_CONV_IN, K_CONV_OUT, K_CONV_SOCK = range(8)
 
 
-def tlc_schedules(seed, num):
-    r = tlc("Io.tla", "Io_sim.cfg", workers=2, timeout=280, simulate=num, depth=150, seed=seed, heap="2g", metaname="c14_sim")
+def tlc_schedules(seed, num, cfg="Io_sim.cfg"):
+    r = tlc("Io.tla", cfg, workers=2, timeout=280, simulate=num, depth=150, seed=seed, heap="2g", metaname="c14_" + cfg)
     if r.rc != 0:
         raise Broken("TLC simulation (schedule emission) failed rc=%s:\n%s" % (r.rc, r.out[-2000:]))
     seen, out = set(), []
@@ -121,9 +123,11 @@ def tlc_schedules(seed, num):
 def sched_from_tlc(j, rng, unit):
     """One TLC behaviour -> harness schedule text.  unit = bytes per abstract byte."""
     st = j["s"]
-    usesR = any(x["a"] == "read" for x in st)
-    usesW = any(x["a"] == "write" for x in st)
-    if usesR and usesW:
+    usesR = any(x["a"] in ("read", "cread") for x in st)
+    usesW = any(x["a"] in ("write", "cwrite") for x in st)
+    if any(x["a"] in ("cread", "cwrite") for x in st):
+        kind = K_CONV_SOCK if usesR and usesW else K_CONV_OUT if usesW else K_CONV_IN
+    elif usesR and usesW:
         kind = K_SOCK
     elif usesW:
         kind = rng.choice([K_PIPE_OUT, K_SOCK, K_FILE_OUT, K_PIPE_OUT])
@@ -142,10 +146,10 @@ def sched_from_tlc(j, rng, unit):
             lines.append("high %d" % max(1, unit // 16))     # keeps the number of invocations bounded
         elif a in ("low", "high"):
             lines.append("%s %d" % (a, val * unit))
-        elif a == "read":
-            lines.append("read %d" % (val * unit))
-        elif a == "write":
-            lines.append("write %d %d %d 0" % (val * unit, 2 if w else 1, w * unit))
+        elif a in ("read", "cread"):
+            lines.append("%s %d" % (a, val * unit))
+        elif a in ("write", "cwrite"):
+            lines.append("%s %d %d %d 0" % (a, val * unit, 2 if w else 1, w * unit))
         elif a in ("barrier", "close", "stop", "release", "pc", "ph"):
             lines.append(a)
         elif a in ("pw", "pr"):
@@ -159,8 +163,8 @@ def pipe_hup_guard(kind, lines):
     completes when the reader goes away (EPOLLERR is ignored by the epoll backend).  The general
     schedules keep away from it (hangup on a pipe only if all writes fit its buffer); one directed
     execution demonstrates it."""
-    if kind == K_PIPE_OUT:
-        total = sum(int(x.split()[1]) for x in lines if x.startswith("write "))
+    if kind in (K_PIPE_OUT, K_CONV_OUT):
+        total = sum(int(x.split()[1]) for x in lines if x.startswith("write ") or x.startswith("cwrite "))
         if total > 60000:
             lines = [x for x in lines if x != "ph"]
     return "\n".join(lines)
@@ -264,6 +268,57 @@ def sched_random(rng):
     return pipe_hup_guard(kind, out)
 
 
+def sched_random_conv(rng):
+    """dispatch_read / dispatch_write on a pipe or a socketpair."""
+    kind = rng.choice([K_CONV_IN, K_CONV_OUT, K_CONV_SOCK])
+    dirs = {K_CONV_IN: "R", K_CONV_OUT: "W", K_CONV_SOCK: "RW"}[kind]
+    client, peer = [], []
+    rtotal = 0
+    for i in range(rng.randint(1, 4)):
+        d = rng.choice(dirs)
+        n = rand_len(rng) if rng.random() > 0.06 else 0
+        if d == "R":
+            client.append("cread %d" % (n if rng.random() > 0.1 else -1))
+            rtotal += n
+        else:
+            nf = rng.choice([1, 1, 2, 3]) if n >= 3 else 1
+            f1 = rng.randint(1, n - 2) if nf >= 2 else 0
+            f2 = rng.randint(1, n - f1 - 1) if nf == 3 else 0
+            client.append("cwrite %d %d %d %d" % (n, nf, f1, f2))
+        r = rng.random()
+        if r < 0.3:
+            client.append("waitdone %d %d" % (rng.randint(1, i + 1), rng.choice([500, 3000, 20000])))
+        elif r < 0.45:
+            client.append("sleep %d" % rng.choice([50, 300, 1500]))
+    if "R" in dirs:
+        left = max(0, int(rtotal * rng.choice([0.5, 1, 1, 1.3])) + rng.choice([0, 1, -1]))
+        while left > 0:
+            k = min(left, rand_len(rng))
+            peer.append("pw %d" % k)
+            left -= k
+            if rng.random() < 0.4:
+                peer.append("sleep %d" % rng.choice([50, 500, 2000]))
+        if rng.random() < 0.6:
+            peer.append("pc")
+    if "W" in dirs:
+        if rng.random() < 0.5:
+            peer.insert(rng.randint(0, len(peer)), "pr -1")
+        else:
+            for _ in range(rng.randint(1, 4)):
+                peer.insert(rng.randint(0, len(peer)), "pr %d" % rand_len(rng))
+        if rng.random() < 0.25:
+            peer.insert(rng.randint(0, len(peer)), "ph")
+    out = ["exec %d %%d %d 0" % (kind, 1 if rng.random() < 0.3 else 0)]
+    i = j = 0
+    while i < len(client) or j < len(peer):
+        if j >= len(peer) or (i < len(client) and rng.random() < 0.55):
+            out.append(client[i]); i += 1
+        else:
+            out.append(peer[j]); j += 1
+    out.append("end")
+    return pipe_hup_guard(kind, out)
+
+
 # directed: the handler queue is busy while an operation is rejected (known finding), and the
 # control case (an accepted operation: the cleanup handler must wait for its handler)
 DIRECTED = [
@@ -288,7 +343,7 @@ def prep_trace(path, out):
             chunk = r["chunk"] if chunk is None else chunk
             if chunk != r["chunk"]:
                 raise Broken("one trace file must use one chunk size")
-        elif e in ("Read", "Write"):
+        elif e in ("Read", "Write", "CRead", "CWrite"):
             while len(cur["ops"]) < r["o"]:
                 cur["ops"].append([])
             maxops = max(maxops, r["o"])
@@ -296,6 +351,8 @@ def prep_trace(path, out):
             maxbars = max(maxbars, r["b"])
         elif e == "H":
             cur["ops"][r["o"] - 1].append({"n": r["n"], "done": r["done"], "null": r["null"], "err": r["err"]})
+        elif e == "CH":     # the single handler invocation of dispatch_read / dispatch_write
+            cur["ops"][r["o"] - 1].append({"n": r["n"], "done": 1, "null": r["null"], "err": r["err"]})
     with open(out, "w") as f:
         for r in recs:
             f.write(json.dumps(r) + "\n")
@@ -320,6 +377,19 @@ def log_oracles(recs):
         ops = {}
         inh = {}
         cleanups = [i for i, r in enumerate(ev) if r["e"] == "Cleanup"]
+        if rs["kind"].startswith("conv"):
+            # convenience API: no channel, no cleanup handler; exactly one invocation per call
+            n = {}
+            for r in ev:
+                if r["e"] in ("CRead", "CWrite"):
+                    n[r["o"]] = 0
+                elif r["e"] == "CH":
+                    n[r["o"]] = n.get(r["o"], 0) + 1
+                    if not r["ok"]:
+                        bad.append("exec %d op %d: data content mismatch" % (x, r["o"]))
+            if cleanups or any(c != 1 for c in n.values()):
+                bad.append("exec %d: convenience handlers did not run exactly once each (%s)" % (x, n))
+            continue
         if len(cleanups) != 1:
             bad.append("exec %d: cleanup handler ran %d times" % (x, len(cleanups)))
             continue
@@ -478,8 +548,13 @@ def traces(v, tier, seed):
     for i, j in enumerate(tl):
         unit = [1, 1, 700, 3000, 33000][i % 5]
         add(sched_from_tlc(j, rng, unit), pages_opts[i % 4])
+    tlc_conv, _ = tlc_schedules(seed + 1, max(60, nsim // 4), "Io_simc.cfg")
+    rng.shuffle(tlc_conv)
+    for i, j in enumerate(tlc_conv[:max(10, ntake // 5)]):
+        add(sched_from_tlc(j, rng, [1, 900, 20000][i % 3]), pages_opts[i % 4])
+    v.notes["tlc_fault_schedules_emitted"] += len(tlc_conv)
     for i in range(nrand):
-        add(sched_random(rng), pages_opts[rng.randrange(4)])
+        add(sched_random(rng) if i % 5 else sched_random_conv(rng), pages_opts[rng.randrange(4)])
     for i, dsc in enumerate(DIRECTED):
         batches[4].insert(0, dsc % 4)
     # split into driver runs of bounded size
